@@ -70,6 +70,7 @@ const (
 )
 
 var (
+	debugFDs    = os.Getenv("C09_DEBUG") != ""
 	failedOpens atomic.Int64
 	ballast     []byte
 	c           *lib.Check
@@ -82,11 +83,12 @@ type cfg struct {
 	Flate    bool
 	Embedded bool
 	IO       int
+	VCache   bool // value-log cache enabled, and the sweep starts with unchecked (skipIntegrityCheck) exports of every tx
 }
 
 var allCfgs = []cfg{
-	{"plain-io1", false, false, 1}, {"embedded", false, true, 1}, {"flate-io1", true, false, 1},
-	{"plain-io2", false, false, 2}, {"flate-io2", true, false, 2},
+	{"plain-io1", false, false, 1, false}, {"embedded", false, true, 1, false}, {"flate-io1", true, false, 1, false},
+	{"plain-io2", false, false, 2, false}, {"plain-io1-vcache", false, false, 1, true}, {"flate-io2", true, false, 2, false},
 }
 
 func options(cf cfg) *store.Options {
@@ -94,7 +96,11 @@ func options(cf cfg) *store.Options {
 	if cf.Flate {
 		comp = appendable.FlateCompression
 	}
-	return store.DefaultOptions().WithSynced(false).WithLogger(nolog).WithFileSize(fileSize).
+	vcache := 0
+	if cf.VCache {
+		vcache = 16
+	}
+	return store.DefaultOptions().WithSynced(false).WithLogger(nolog).WithFileSize(fileSize).WithVLogCacheSize(vcache).
 		WithMaxConcurrency(2).WithMaxIOConcurrency(cf.IO).WithMaxTxEntries(maxTxEntries).WithMaxKeyLen(maxKeyLen).
 		WithMaxValueLen(1024).WithWriteBufferSize(1024).WithTxLogCacheSize(2).WithMaxActiveTransactions(4).
 		WithMaxWaitees(4).WithCompressionFormat(comp).WithEmbeddedValues(cf.Embedded).WithMultiIndexing(true).
@@ -495,11 +501,12 @@ func encDual(p *store.DualProof) string {
 
 // sweeper performs the read sweep of one opened store copy.
 type sweeper struct {
-	p        *pristine
-	obs      Obs
-	panicked bool
-	cur      *atomic.Value
-	leaked   []string // API calls that returned with ImmuStore._valBsMux still locked
+	p            *pristine
+	obs          Obs
+	panicked     bool
+	readPanicked bool // a read API panicked: the readable prefix ended there, not at an unreadable tx
+	cur          *atomic.Value
+	leaked       []string // API calls that returned with ImmuStore._valBsMux still locked
 }
 
 // call records one observation: "ok:<content>", "err:<text>" or "panic:<text>". Returns true on ok.
@@ -576,13 +583,29 @@ func (s *sweeper) sweep(dir string, persisted, indexAfterPanic bool, afterReads 
 	}) {
 		afterReads(-1)
 		// a failed Open does not close the appendables it opened: their descriptors are only released by finalizers
-		if failedOpens.Add(1)%128 == 0 {
-			runtime.GC()
+		if failedOpens.Add(1)%8 == 0 {
+			for i := 0; i < 3 && openFDs() > 400; i++ {
+				runtime.GC()
+				time.Sleep(5 * time.Millisecond) // (the finalizer goroutine closes them)
+			}
 		}
 		return -1
 	}
 	defer lib.Catch(func() { st.Close() })
 	tx := store.NewTx(maxTxEntries, maxKeyLen)
+	if s.p.cf.VCache {
+		// what an unchecked read returns is not constrained by the property, but it must not influence the checked reads that follow
+		for t := 1; t <= nTx; t++ {
+			s.call(fmt.Sprintf("UncheckedExportTx#%d", t), func() (string, error) {
+				_, err := st.ExportTx(uint64(t), false, true, tx)
+				return "", err
+			})
+			if mux := valBsMux(st); mux != nil && !s.panicked {
+				mux.TryLock()
+				mux.Unlock()
+			}
+		}
+	}
 	prefix := true
 	for t := 1; t <= nTx; t++ {
 		var vl string
@@ -691,6 +714,7 @@ func (s *sweeper) sweep(dir string, persisted, indexAfterPanic bool, afterReads 
 	}
 	afterReads(readable)
 	readPanicked := s.panicked
+	s.readPanicked = readPanicked
 	if s.panicked {
 		if !indexAfterPanic {
 			return readable
@@ -961,6 +985,11 @@ func (p *pristine) describe(a alteration) (field string, tx, entry int) {
 }
 
 // guarded runs f under the hang cap. false: f did not return in time (its goroutine is abandoned).
+func openFDs() int {
+	es, _ := os.ReadDir("/proc/self/fd")
+	return len(es)
+}
+
 func guarded(f func()) bool {
 	done := make(chan struct{})
 	go func() { defer close(done); f() }()
@@ -998,6 +1027,9 @@ func (p *pristine) compare(a alteration, want, got Obs, mode string, leaked []st
 	for _, k := range keys {
 		out.Evals++
 		w, g := want[k], got[k]
+		if strings.HasPrefix(k, "Unchecked") && !strings.HasPrefix(g, "panic:") {
+			continue
+		}
 		switch {
 		case strings.HasPrefix(g, "panic:"):
 			out.Viol = append(out.Viol, lib.Violation{Sig: fmt.Sprintf("panic api=%s %s", apiOf(k), where),
@@ -1081,6 +1113,22 @@ func (w *worker) run(a alteration, mode string, indexAfterPanic bool, partial fu
 				upto = nTx
 			}
 			_, indexed := s.obs["InitIndexing#"]
+			if s.readPanicked && indexed && mode == "rebuilt" {
+				// the sweep stopped counting readable txs at the panic, but the indexer may read further: the index is
+				// compared with the pristine index at whichever tx it consistently corresponds to
+				for u := upto; u < nTx; u++ {
+					tmp := &outcome{}
+					p.compare(a, p.want(u, true), s.obs, mode, nil, tmp)
+					silent := false
+					for _, v := range tmp.Viol {
+						silent = silent || strings.HasPrefix(v.Sig, "silent-change api=Get")
+					}
+					if !silent {
+						break
+					}
+					upto = u + 1
+				}
+			}
 			p.compare(a, p.want(upto, indexed), s.obs, mode, s.leaked, out)
 			if mode == "rebuilt" {
 				os.RemoveAll(filepath.Join(w.dir, "index"))
@@ -1409,14 +1457,14 @@ func main() {
 		c.Finish("replay of "+p.altString(r.Alt)+" index "+r.Index, false)
 	}
 
-	// quick: single alterations, rebuilt index: plain-io1, embedded, flate-io1 completely, plain-io2 restricted to vLen, vOff
-	// and the value logs. thorough: 5 configurations completely: single alterations with rebuilt and with persisted index,
+	// quick: single alterations, rebuilt index: plain-io1, embedded, flate-io1, plain-io1-vcache completely, plain-io2 restricted to vLen, vOff
+	// and the value logs. thorough: 6 configurations completely: single alterations with rebuilt and with persisted index,
 	// then pairs of bit flips with rebuilt index.
 	type phase struct {
 		name, mode string
 		pairs      bool
 	}
-	cfgs, phases := allCfgs[:4], []phase{{"single", "rebuilt", false}}
+	cfgs, phases := allCfgs[:5], []phase{{"single", "rebuilt", false}}
 	if c.Thorough() {
 		cfgs, phases = allCfgs, []phase{{"single", "rebuilt", false}, {"single", "persisted", false}, {"pair", "rebuilt", true}}
 	}
@@ -1481,6 +1529,9 @@ func main() {
 						co := w.runChild(a, ph.mode)
 						out.Viol = append(out.Viol, co.Viol...)
 						c.Add("alterations_run_in_child_process", 1)
+					}
+					if debugFDs {
+						fmt.Printf("DEBUG fds=%d after %s detected=%v ex=%s\n", openFDs(), p.altString(a), out.Detected, out.Example)
 					}
 					c.AddEvals(out.Evals)
 					for _, v := range out.Viol {
